@@ -215,7 +215,7 @@ def execute(ctx, family, progs, n, par=16):
     trace = ctx.path(f"trace_{family}.ndjson")
     big = (1 << 20) if ctx.quick else (8 << 20)
     if family == "flood":
-        d = lib.run_driver("drv_ribbit", ["--programs", progs, "--out", trace, "--par", 2, "--nofile", NOFILE,
+        d = lib.run_driver("drv_ribbit", ["--programs", progs, "--out", trace, "--par", 1, "--nofile", NOFILE,
                                           "--port-base", 10600, "--port-span", 200], timeout=1500)
     elif family == "slow":
         d = lib.run_driver("drv_ribbit", ["--programs", progs, "--out", trace, "--par", 64, "--big", big,
